@@ -83,9 +83,60 @@ def pred(arg, out):
     return None
 
 
+def gen_pub_cases(ctx: Ctx):
+    """sequences of protect calls by a caller who only receives the group PUBLIC key (DH small group / ECDH): the third draw is the ephemeral private key"""
+    from dpapi_ng._blob import ProtectionDescriptor
+
+    cases = []
+    ctr = 1000
+    with sym.patched():
+        sd = ProtectionDescriptor.parse(hostile.SID).get_target_sd()
+        for mode in ("DH", "ECDH_P256", "ECDH_P384"):
+            penv, _ = e2e.dc_envelopes(4, sd, (361, 31, 30), mode)
+            for seq_len in (2, 3, 6):
+                calls = []
+                for j in range(seq_len):
+                    draws = [stream(ctr, 32), stream(ctr + 1, 12), stream(ctr + 2, 8)]
+                    ctr += 3
+                    calls.append([draws, b"same plaintext", hostile.SID])
+                cases.append([penv, calls])
+    return cases
+
+
+def pred_pub(arg, out):
+    from dpapi_ng._asn1 import ASN1Reader
+    from dpapi_ng._blob import DPAPINGBlob
+
+    penv, calls = arg
+    if out is None or isinstance(out, Err) or len(out) != len(calls):
+        return f"protect sequence failed: {str(out)[:80]}"
+    seen_ki, seen_nonce, seen_cek = set(), set(), set()
+    for (draws, data, sid), blob in zip(calls, out):
+        if isinstance(blob, Err):
+            return f"a protect call failed or reused randomness ({blob.name})"
+        b = DPAPINGBlob.unpack(bytes(blob))
+        nonce = bytes(ASN1Reader(b.enc_content_parameters).read_sequence().read_octet_string())
+        ki = bytes(b.key_identifier.key_info)
+        wrapped = sym.sym_parse(3, b.enc_cek)
+        cek = wrapped[1] if wrapped else None
+        if nonce != bytes(draws[1]) or cek != bytes(draws[0]):
+            return "CEK / GCM nonce are not the fresh draws of this call"
+        if ki in seen_ki:
+            return "the ephemeral public key in the key identifier repeats across protect calls"
+        if nonce in seen_nonce or cek in seen_cek:
+            return "a CEK or nonce was used twice"
+        seen_ki.add(ki)
+        seen_nonce.add(nonce)
+        seen_cek.add(cek)
+    return None
+
+
 def units(ctx: Ctx, only=None):
-    cases = [] if getattr(ctx, "replay_only", False) else gen_cases(ctx)
-    return [Unit("fresh.stream", "e2e.protect_seq", cases, e2e.impl_protect_seq, prop_pred=pred)]
+    replaying = getattr(ctx, "replay_only", False)
+    cases = [] if replaying else gen_cases(ctx)
+    pub = [] if replaying else gen_pub_cases(ctx)
+    return [Unit("fresh.stream", "e2e.protect_seq", cases, e2e.impl_protect_seq, prop_pred=pred),
+            Unit("fresh.stream.pub", "e2e.encrypt_seq", pub, e2e.impl_encrypt_seq, prop_pred=pred_pub)]
 
 
 def oracles(ctx: Ctx):
@@ -120,5 +171,10 @@ def search(ctx: Ctx):
         why = pred(c, dec(run_impl(e2e.impl_protect_seq, c)))
         if why:
             return {"unit": "fresh.stream", "input": enc(c)[-3000:], "why": why, "tried": tried, "key": None}
+    for c in gen_pub_cases(ctx):
+        tried += 1
+        why = pred_pub(c, dec(run_impl(e2e.impl_encrypt_seq, c)))
+        if why:
+            return {"unit": "fresh.stream.pub", "input": enc(c)[-3000:], "why": why, "tried": tried, "key": None}
     ctx.notes.append(f"search: {tried} protect sequences use fresh draws unmodified")
     return None
